@@ -30,6 +30,10 @@ type rootless struct{}
 func (*rootless) Error() string { return "rootless failure" }
 func (*rootless) Cause() error  { return nil }
 
+// the poison publisher accepts the message, or fails: with a plain error, or with an error in the causer convention that
+// has nothing underneath
+var poisonPubOutcomes = []hx.PubOutcome{hx.PubOK, hx.PubErr, hx.PubErrRootless}
+
 var results = []string{"ok0", "ok1", "e1", "wrapped-e1", "e2", "e1+outputs", "empty-text", "rootless"}
 var filters = []string{"PoisonQueue", "all", "none", "is-e1", "text-second", "identical-to-e1", "wrapped-only"}
 var metas = []string{"empty", "some", "pre-poisoned"}
@@ -135,15 +139,11 @@ func standalone() *explore.Scenario {
 		res := results[vs.Choose(len(results), 0, "handler result")]
 		filter := filters[vs.Choose(len(filters), 0, "filter")]
 		meta := metas[vs.Choose(len(metas), 0, "metadata")]
-		pubFails := vs.Choose(2, 0, "poison publisher") == 1
-		cfg := fmt.Sprintf("result=%s filter=%s meta=%s poisonPublishFails=%v", res, filter, meta, pubFails)
+		pubOutcome := poisonPubOutcomes[vs.Choose(len(poisonPubOutcomes), 0, "poison publisher")]
+		pubFails := pubOutcome != hx.PubOK
+		cfg := fmt.Sprintf("result=%s filter=%s meta=%s poisonPublishFails=%v (outcome %d)", res, filter, meta, pubFails, pubOutcome)
 		pub := hx.NewScriptPub("poison")
-		pub.Outcome = func(int, string, []*message.Message) hx.PubOutcome {
-			if pubFails {
-				return hx.PubErr
-			}
-			return hx.PubOK
-		}
+		pub.Outcome = func(int, string, []*message.Message) hx.PubOutcome { return pubOutcome }
 		msg := mkMsg(meta)
 		orig := hx.Clone(msg)
 		var bareOut []*message.Message
@@ -259,15 +259,11 @@ func inRouter(c int) *explore.Scenario {
 	return &explore.Scenario{Name: name, C: c, DataOnly: c < 0, Body: func() {
 		res := results[vs.Choose(len(results), 0, "handler result")]
 		filter := filters[vs.Choose(len(filters), 0, "filter")]
-		pubFails := vs.Choose(2, 0, "poison publisher") == 1
-		cfg := fmt.Sprintf("result=%s filter=%s poisonPublishFails=%v", res, filter, pubFails)
+		pubOutcome := poisonPubOutcomes[vs.Choose(len(poisonPubOutcomes), 0, "poison publisher")]
+		pubFails := pubOutcome != hx.PubOK
+		cfg := fmt.Sprintf("result=%s filter=%s poisonPublishFails=%v (outcome %d)", res, filter, pubFails, pubOutcome)
 		pub := hx.NewScriptPub("poison")
-		pub.Outcome = func(int, string, []*message.Message) hx.PubOutcome {
-			if pubFails {
-				return hx.PubErr
-			}
-			return hx.PubOK
-		}
+		pub.Outcome = func(int, string, []*message.Message) hx.PubOutcome { return pubOutcome }
 		orig := mkMsg("some")
 		sub := hx.NewScriptSub("src", map[string][]*message.Message{"in": {orig}})
 		r, _ := message.NewRouter(message.RouterConfig{}, nil)
